@@ -29,6 +29,8 @@ type wireInput struct {
 	Origin string     `json:"origin"`
 	// PostSendUS: SendMsg of the real side returns that long after the packet became visible
 	PostSendUS int `json:"postSendUs"`
+	// Filter: receiver-side Filter by name (see filterByName)
+	Filter string `json:"filter,omitempty"`
 }
 
 func runWireInput(c *Ctx, caseNo int, in wireInput) ([]vt.Ev, *SyncResult, error) {
@@ -89,6 +91,10 @@ func runWireInput(c *Ctx, caseNo int, in wireInput) ([]vt.Ev, *SyncResult, error
 		o.PuppetS = PuppetSender(view, in.SS)
 		extra["script"] = vt.Opaque(in.SS)
 		extra["srcExact"] = false
+		if in.Filter != "" {
+			o.Filter = filterByName(in.Filter)
+			extra["filter"] = in.Filter
+		}
 	}
 	o.Extra = extra
 	res, err := RunSync(caseNo, src, dst, o)
@@ -148,6 +154,11 @@ func Wire(c *Ctx) error {
 				Shuffle: c.Rand.Intn(2) == 0, Seed: c.Rand.Int63(), DelayUS: []int{0, 0, 20, 200}[c.Rand.Intn(4)], Links: c.Rand.Intn(2) == 0}
 			if origin == "fanout" {
 				rs.Frac, rs.DelayUS = 1, 0
+				if c.Rand.Intn(2) == 0 {
+					// every request before any content is read: more than pipeline + workers outstanding, workers stalled
+					rs.Kind = "burst"
+					rs.Shuffle = c.Rand.Intn(2) == 0
+				}
 			}
 			switch c.Rand.Intn(10) {
 			case 0:
@@ -230,7 +241,14 @@ func Wire(c *Ctx) error {
 			if c.Rand.Intn(8) == 0 {
 				differ = "none"
 			}
-			in := wireInput{What: "receiver", Src: view, Dst: dst, SS: ss, Mode: mode, Differ: differ,
+			filter := ""
+			if c.Rand.Intn(6) == 0 && mode == "dirty" && ss.EOFAfter == 0 {
+				// entries the receiver's Filter rejects still occupy an id in the sender's sequence
+				filter = "rejectRJ"
+				view, dst = addRejected(c.Rand, view), addRejected(c.Rand, dst)
+				origin += "+rejectFilter"
+			}
+			in := wireInput{What: "receiver", Src: view, Dst: dst, SS: ss, Mode: mode, Differ: differ, Filter: filter,
 				CapS: caps[c.Rand.Intn(len(caps))], CapR: caps[c.Rand.Intn(len(caps))], Origin: origin}
 			if c.Rand.Intn(3) == 0 && len(view) <= 12 {
 				in.PostSendUS = []int{200, 1000, 3000}[c.Rand.Intn(3)]
